@@ -1,6 +1,7 @@
 (* Theorems about machine M2 (UpperMachine.v: the whole allocator, one transition per atomic access) under
-   ARBITRARY interleavings: any number of threads, any schedule of get / get_at / put / drain calls
-   (scope: `sched_valid` = valid parameters, no change_tree; see UpperConcInv.v).
+   ARBITRARY interleavings: any number of threads, any schedule of get / get_at / put / drain / change_tree calls
+   (scope: `sched_valid` = valid parameters; change_tree restricted to Offline and class changes; see UpperConcInv.v).
+   The ghost `off` (frames hidden by Offline) is computed along the run by `grun`; without change_tree it stays zero.
    From the invariant `UInv` (UpperConcInv.v):
      conc_uinv            UInv holds in every reachable state
      conc_upper_panics    (C03 part U) the only reachable panic of the whole allocator is lower.rs:470 "Exceeding retries"
@@ -8,7 +9,10 @@
                           local.rs, "unreserve invalid class", "Invalid class" and every slice index of trees / locals
                           are unreachable
      conc_upper_held      (C01 through the upper API) blocks handed out and not yet freed are disjoint, aligned, in range
-     conc_quiescent_inv   (C04) whenever every thread is idle the sequential invariant `UpperInv` holds (with no tree
+     conc_upper_safe_off  the same three facts with change_tree in the schedule (UpperInv with the computed ghost `off`)
+     conc_offline_hidden  (C15) a tree whose frames are all hidden (off = TREE_FRAMES) stays hidden along every
+                          continuation, its counter is 0 and no block handed out lies in it
+     (c) of conc_upper_safe (C04) whenever every thread is idle the sequential invariant `UpperInv` holds (with no tree
                           offline), hence (sequential theorems of UpperStatsProofs.v / GlueHistory.v, restated in Properties/C04.v) validate() passes and fast and exact
                           accounting agree at the end of EVERY interleaving: conc_quiescent_validate,
                           conc_quiescent_stats. *)
@@ -36,8 +40,10 @@ Section Props.
   Proof. induction l as [|a l IH]; cbn [flat_map]; intros H; [reflexivity|]. rewrite (H a (or_introl eq_refl)), IH; [reflexivity|]. intros x Hx. apply H. right. exact Hx. Qed.
 
   (* ----- the initial state ----- *)
+  Definition zeros (u : upper) : list N := repeat 0 (length (trees u)).
+
   Theorem uboot_inv u held0 n :
-    UpperInv g policy (ustate_new u) -> HeldInit g (low u) held0 -> UInv g policy (uboot u held0 n).
+    UpperInv g policy (ustate_new u) -> HeldInit g (low u) held0 -> UInv g policy (zeros u) (uboot u held0 n).
   Proof.
     intros HU HH. split; [|split].
     - replace (m1_of g (uboot u held0 n)) with (boot (low u) held0 n).
@@ -50,15 +56,24 @@ Section Props.
     - cbn [uboot m2_up m2_pool]. apply Forall_forall. intros x Hx. apply repeat_spec in Hx. subst x. exact I.
   Qed.
 
+  (* the run together with its ghost `off` *)
   Theorem conc_uinv u held0 n sch :
     UpperInv g policy (ustate_new u) -> HeldInit g (low u) held0 -> sched_valid g u sch ->
-    UInv g policy (urun g policy sch (uboot u held0 n)).
+    let x := grun g policy sch (uboot u held0 n, zeros u) in
+    UInv g policy (snd x) (fst x) /\ fst x = urun g policy sch (uboot u held0 n).
   Proof.
-    intros HU HH SV. apply (urun_inv g policy WF PR PT); [apply uboot_inv; assumption|exact SV].
+    intros HU HH SV x. split; [|apply grun_fst].
+    apply (grun_inv g policy WF PR PT); [apply uboot_inv; assumption|exact SV].
+  Qed.
+
+  Lemma urun_static sch : forall st, static_eq (m2_up st) (m2_up (urun g policy sch st)).
+  Proof.
+    induction sch as [|[t c] sch IH]; intros st; [apply static_refl|]. cbn [urun fold_left fst snd].
+    eapply static_trans; [apply (ustep_static g policy WF st t c)|apply IH].
   Qed.
 
   (* ----- (a) panics ----- *)
-  Lemma uinv_panics s : UInv g policy s -> forall x, In x (upanicked s) -> x = SExceedingRetries.
+  Lemma uinv_panics o s : UInv g policy o s -> forall x, In x (upanicked s) -> x = SExceedingRetries.
   Proof.
     intros (_ & _ & F) x Hx. unfold upanicked in Hx. apply in_flat_map in Hx. destruct Hx as (th & Hth & Hin).
     pose proof (proj1 (Forall_forall _ _) F th Hth) as W. destruct th as [l|c p k|z c]; cbn in Hin; try tauto.
@@ -69,7 +84,7 @@ Section Props.
   Lemma heldc_app x a b : heldc x (a ++ b) = heldc x a + heldc x b.
   Proof. unfold heldc. apply sumf_app. Qed.
 
-  Lemma uinv_held s : UInv g policy s -> uheld_ok s = true.
+  Lemma uinv_held o s : UInv g policy o s -> uheld_ok s = true.
   Proof.
     intros (I & _ & _). unfold uheld_ok.
     pose proof (I_H g _ I) as Hk. cbn [m1_of ms_held ms_frames] in Hk. apply Forall_app in Hk. destruct Hk as [Hk _].
@@ -82,7 +97,7 @@ Section Props.
   (* ----- (c) quiescence ----- *)
   Definition uquiescent (s : m2state) : Prop := forall x, In x (m2_pool s) -> exists l, x = UIdle l.
 
-  Lemma uinv_quiescent s : UInv g policy s -> uquiescent s -> UpperInv g policy (ustate_new (m2_up s)).
+  Lemma uinv_quiescent o s : UInv g policy o s -> uquiescent s -> UpperInv g policy {| us := m2_up s; off := o |}.
   Proof.
     intros (I & U & _) Q.
     assert (QM : quiescent (m1_of g s)).
@@ -98,48 +113,187 @@ Section Props.
     apply (UpperInv_C0 g policy). apply (UIC2_to_C g policy WF); [exact LI'|].
     eapply (U2_ext g policy WF); [|exact U]. intros i. apply CRf_nil.
   Qed.
+
+  (* ----- C15: a tree whose frames are all hidden by Offline (off = TREE_FRAMES) ----- *)
+  Lemma uinv_hidden o s i t :
+    UInv g policy o s -> tree_at (m2_up s) i = Some t -> nth (nn i) o 0 = TF g ->
+    t_free t = 0 /\ tree_free g (low (m2_up s)) i = TF g /\ CRf (map (uthr_gh g) (m2_pool s)) i = 0.
+  Proof.
+    intros (_ & U & _) Et Eo. pose proof (tree_at_lt _ _ _ Et) as L.
+    pose proof (U2_tree g policy WF _ _ _ _ _ U Et) as Ok. apply (tree_ok2_nn2 g policy WF) in Ok. destruct Ok as (_ & B & _).
+    pose proof (U2_tree_free_le g policy WF _ _ _ _ U L) as Le. cbn [ux us off] in B, Le. rewrite Eo in B. lia.
+  Qed.
+
+  Lemma uinv_hidden_held o s i :
+    UInv g policy o s -> i < ntrees (m2_up s) -> nth (nn i) o 0 = TF g ->
+    forall F K, In (F, K) (m2_held s) -> F / TF g <> i.
+  Proof.
+    intros UI L Eo F K Hin E. destruct (tree_at_some _ _ L) as (t & Et).
+    destruct (uinv_hidden o s i t UI Et Eo) as (_ & Tf & _). destruct UI as (I & _ & _).
+    assert (Hin' : In (F, K) (ms_held (m1_of g s))) by (cbn [m1_of ms_held]; apply in_or_app; left; exact Hin).
+    pose proof (inv_held_tree_free g WF _ F K I Hin') as Q. rewrite E in Q.
+    assert (Eq : tree_free g (lower_of (m1_of g s)) i = tree_free g (low (m2_up s)) i) by reflexivity.
+    rewrite Eq, Tf in Q. lia.
+  Qed.
+
+  (* once hidden, always hidden *)
+  Lemma goff_hidden o s t i :
+    UInv g policy o s -> i < ntrees (m2_up s) -> nth (nn i) o 0 = TF g -> nth (nn i) (goff o s t) 0 = TF g.
+  Proof.
+    intros UI L Eo. unfold goff. destruct (nth_error (m2_pool s) t) as [[l|c p k|z c]|]; try exact Eo.
+    destruct p as [j|j f0|j f0 cur j' a|j f0 cur new|cl idx f0|cl idx f0 cur new|cl idx new|th]; try exact Eo.
+    destruct f0 as [| | | |mc mf ch|]; try exact Eo. cbn [off_next].
+    destruct (tree_at (m2_up s) j) as [tr|] eqn:Et; [|exact Eo]. destruct (tree_eqb tr cur) eqn:Eq; [|exact Eo].
+    apply tree_eqb_true in Eq. subst tr. unfold off_upd. destruct (c_op ch) as [[|]|]; try exact Eo.
+    destruct (N.eq_dec j i) as [->|Ne].
+    - destruct (uinv_hidden o s i cur UI Et Eo) as (Z & _). rewrite nth_upd_same.
+      + rewrite Eo, Z. lia.
+      + destruct UI as (_ & U & _). destruct U as (_ & _ & H3 & _). cbn [ux off us] in H3. rewrite H3. unfold ntrees in L. unfold nn. lia.
+    - rewrite nth_upd_other; [exact Eo|]. unfold nn. lia.
+  Qed.
+
+  Lemma grun_hidden sch : forall s o i, UInv g policy o s -> sched_valid g (m2_up s) sch ->
+    i < ntrees (m2_up s) -> nth (nn i) o 0 = TF g ->
+    let y := grun g policy sch (s, o) in
+    nth (nn i) (snd y) 0 = TF g /\ (forall F K, In (F, K) (m2_held (fst y)) -> F / TF g <> i).
+  Proof.
+    induction sch as [|[t c] sch IH]; intros s o i UI SV L Eo.
+    - split; [exact Eo|]. apply (uinv_hidden_held o); assumption.
+    - inversion SV as [|? ? V1 V2]; subst. cbn [snd] in V1.
+      change (grun g policy ((t, c) :: sch) (s, o)) with (grun g policy sch (fst (ustep g policy s t c), goff o s t)).
+      apply IH.
+      + apply (ustep_inv g policy WF PR PT); assumption.
+      + eapply Forall_impl; [|exact V2]. intros tc. apply (call_valid2_static g). apply (ustep_static g policy WF).
+      + rewrite (proj1 (ustep_static g policy WF s t c)). exact L.
+      + apply goff_hidden; assumption.
+  Qed.
+
+  Lemma zeros_static u u' : static_eq u u' -> zeros u' = zeros u.
+  Proof. intros (E & _). unfold zeros. unfold ntrees in E. f_equal. lia. Qed.
 End Props.
 
 (* ================================ the theorems ================================ *)
-Theorem conc_upper_safe : forall g policy u held0 n sch,
+(* schedules with change_tree (Offline / class change): the ghost `off` is computed along the run (`grun`) *)
+Theorem conc_upper_safe_off : forall g policy u held0 n sch,
   wf_geom g -> pol_refl_match policy -> pol_demote_trans policy ->
   UpperInv g policy (ustate_new u) -> HeldInit g (low u) held0 -> sched_valid g u sch ->
+  let x := grun g policy sch (uboot u held0 n, zeros u) in
+  let s := fst x in
+  s = urun g policy sch (uboot u held0 n) /\
+  (forall z, In z (upanicked s) -> z = SExceedingRetries) /\
+  uheld_ok s = true /\
+  (uquiescent s -> UpperInv g policy {| us := m2_up s; off := snd x |}).
+Proof.
+  intros g policy u held0 n sch WF PR PT HU HH SV x s.
+  destruct (conc_uinv g policy WF PR PT u held0 n sch HU HH SV) as (UI & E). fold x in UI, E. fold s in UI, E.
+  split; [exact E|]. split; [apply (uinv_panics g policy _ s UI)|].
+  split; [apply (uinv_held g policy WF _ s UI)|apply (uinv_quiescent g policy WF _ s UI)].
+Qed.
+Print Assumptions conc_upper_safe_off.
+
+(* C15, concurrent: once all frames of tree i are hidden by Offline (off_i = TREE_FRAMES, i.e. the tree was entirely
+   free and unreserved when it was taken offline), this stays so along EVERY continuation of the schedule, the
+   tree counter is 0 and no block handed out lies in tree i: an offline tree is never allocated from *)
+Theorem conc_offline_hidden : forall g policy u held0 n sch1 sch2 i,
+  wf_geom g -> pol_refl_match policy -> pol_demote_trans policy ->
+  UpperInv g policy (ustate_new u) -> HeldInit g (low u) held0 -> sched_valid g u (sch1 ++ sch2) ->
+  i < ntrees u ->
+  let x := grun g policy sch1 (uboot u held0 n, zeros u) in
+  nth (nn i) (snd x) 0 = TF g ->
+  let y := grun g policy sch2 x in
+  y = grun g policy (sch1 ++ sch2) (uboot u held0 n, zeros u) /\
+  nth (nn i) (snd y) 0 = TF g /\
+  (forall F K, In (F, K) (m2_held (fst y)) -> F / TF g <> i) /\
+  (forall t, tree_at (m2_up (fst y)) i = Some t -> t_free t = 0).
+Proof.
+  intros g policy u held0 n sch1 sch2 i WF PR PT HU HH SV L x Eo y.
+  apply Forall_app in SV. destruct SV as [SV1 SV2].
+  destruct (conc_uinv g policy WF PR PT u held0 n sch1 HU HH SV1) as (UI & E). fold x in UI, E.
+  assert (SE : static_eq u (m2_up (fst x))).
+  { rewrite E. apply (urun_static g policy WF sch1 (uboot u held0 n)). }
+  assert (SV2' : sched_valid g (m2_up (fst x)) sch2).
+  { eapply Forall_impl; [|exact SV2]. intros tc. apply (call_valid2_static g). exact SE. }
+  assert (L' : i < ntrees (m2_up (fst x))) by (rewrite (proj1 SE); exact L).
+  assert (Ex : x = (fst x, snd x)) by apply surjective_pairing.
+  split; [unfold y, x, grun; rewrite fold_left_app; reflexivity|].
+  pose proof (grun_hidden g policy WF PR PT sch2 (fst x) (snd x) i UI SV2' L' Eo) as H. cbv zeta in H. rewrite <- Ex in H. fold y in H.
+  destruct H as [H1 H2]. split; [exact H1|]. split; [exact H2|].
+  intros t Et.
+  assert (UIy : UInv g policy (snd y) (fst y)).
+  { unfold y. rewrite Ex. apply (grun_inv g policy WF PR PT); assumption. }
+  exact (proj1 (uinv_hidden g policy WF _ _ i t UIy Et H1)).
+Qed.
+Print Assumptions conc_offline_hidden.
+
+(* schedules without change_tree: no tree is ever offline *)
+Theorem conc_upper_safe : forall g policy u held0 n sch,
+  wf_geom g -> pol_refl_match policy -> pol_demote_trans policy ->
+  UpperInv g policy (ustate_new u) -> HeldInit g (low u) held0 ->
+  sched_valid g u sch -> Forall (fun tc => no_change (snd tc)) sch ->
   let s := urun g policy sch (uboot u held0 n) in
   (forall x, In x (upanicked s) -> x = SExceedingRetries) /\
   uheld_ok s = true /\
   (uquiescent s -> UpperInv g policy (ustate_new (m2_up s))).
 Proof.
-  intros g policy u held0 n sch WF PR PT HU HH SV s.
-  pose proof (conc_uinv g policy WF PR PT u held0 n sch HU HH SV) as UI. fold s in UI.
-  split; [apply (uinv_panics g policy s UI)|]. split; [apply (uinv_held g policy WF s UI)|apply (uinv_quiescent g policy WF s UI)].
+  intros g policy u held0 n sch WF PR PT HU HH SV NC s.
+  destruct (conc_upper_safe_off g policy u held0 n sch WF PR PT HU HH SV) as (E & A & B & C).
+  assert (Eo : snd (grun g policy sch (uboot u held0 n, zeros u)) = zeros u).
+  { apply (grun_nochange g policy WF PR PT); [apply uboot_inv; assumption|exact SV|exact NC|].
+    cbn [uboot m2_pool]. apply Forall_forall. intros x Hx. apply repeat_spec in Hx. subst x. exact I. }
+  rewrite E in A, B, C. fold s in A, B, C. split; [exact A|]. split; [exact B|].
+  intros Q. specialize (C Q). rewrite Eo in C.
+  assert (Ez : zeros u = zeros (m2_up s)).
+  { symmetry. apply zeros_static. unfold s. apply (urun_static g policy WF sch (uboot u held0 n)). }
+  rewrite Ez in C. exact C.
 Qed.
 Print Assumptions conc_upper_safe.
 
 (* at the end of every interleaving: validate() passes, fast and exact accounting agree *)
 Theorem conc_quiescent_validate : forall g policy u held0 n sch,
   wf_geom g -> pol_refl_match policy -> pol_demote_trans policy ->
-  UpperInv g policy (ustate_new u) -> HeldInit g (low u) held0 -> sched_valid g u sch ->
+  UpperInv g policy (ustate_new u) -> HeldInit g (low u) held0 ->
+  sched_valid g u sch -> Forall (fun tc => no_change (snd tc)) sch ->
   let s := urun g policy sch (uboot u held0 n) in
   uquiescent s -> llfree_validate g (m2_up s) = Ok tt.
 Proof.
-  intros g policy u held0 n sch WF PR PT HU HH SV s Q.
-  destruct (conc_upper_safe g policy u held0 n sch WF PR PT HU HH SV) as (_ & _ & H). specialize (H Q).
+  intros g policy u held0 n sch WF PR PT HU HH SV NC s Q.
+  destruct (conc_upper_safe g policy u held0 n sch WF PR PT HU HH SV NC) as (_ & _ & H). specialize (H Q).
   apply (UpperStatsProofs.llfree_validate_ok g policy WF (lower_facts_proved g WF) _ H (GlueProofs.LS_sum g WF)). cbn [ustate_new off]. apply Forall_forall. intros x Hx.
   apply repeat_spec in Hx. exact Hx.
 Qed.
 Print Assumptions conc_quiescent_validate.
 
-Theorem conc_quiescent_stats : forall g policy u held0 n sch,
+(* ... with change_tree: the fast count plus the hidden amounts is the exact count *)
+Theorem conc_quiescent_stats_off : forall g policy u held0 n sch,
   wf_geom g -> pol_refl_match policy -> pol_demote_trans policy ->
   UpperInv g policy (ustate_new u) -> HeldInit g (low u) held0 -> sched_valid g u sch ->
+  let x := grun g policy sch (uboot u held0 n, zeros u) in
+  uquiescent (fst x) ->
+  exists ts, llfree_tree_stats g (m2_up (fst x)) = Ok ts /\
+    ts_free ts + UpperStatsProofs.sumN (snd x) = free_frames (llfree_stats g (m2_up (fst x))) /\
+    ts_free ts + UpperStatsProofs.sumN (snd x) = exact_free (abs g (low (m2_up (fst x)))).
+Proof.
+  intros g policy u held0 n sch WF PR PT HU HH SV x Q.
+  destruct (conc_upper_safe_off g policy u held0 n sch WF PR PT HU HH SV) as (_ & _ & _ & H). specialize (H Q). fold x in H.
+  destruct (GlueHistory.tree_stats_step g policy WF _ H) as (ts & E & _).
+  exists ts. split; [exact E|].
+  pose proof (UpperStatsProofs.llfree_tree_stats_free g policy WF (lower_facts_proved g WF) _ H (GlueProofs.LS_sum g WF) ts E) as A.
+  split; [exact A|]. exact (eq_trans A (proj1 (GlueHistory.stats_step g policy WF _ H))).
+Qed.
+Print Assumptions conc_quiescent_stats_off.
+
+Theorem conc_quiescent_stats : forall g policy u held0 n sch,
+  wf_geom g -> pol_refl_match policy -> pol_demote_trans policy ->
+  UpperInv g policy (ustate_new u) -> HeldInit g (low u) held0 ->
+  sched_valid g u sch -> Forall (fun tc => no_change (snd tc)) sch ->
   let s := urun g policy sch (uboot u held0 n) in
   uquiescent s ->
   exists ts, llfree_tree_stats g (m2_up s) = Ok ts /\
     ts_free ts = free_frames (llfree_stats g (m2_up s)) /\
     ts_free ts = exact_free (abs g (low (m2_up s))).
 Proof.
-  intros g policy u held0 n sch WF PR PT HU HH SV s Q.
-  destruct (conc_upper_safe g policy u held0 n sch WF PR PT HU HH SV) as (_ & _ & H). specialize (H Q).
+  intros g policy u held0 n sch WF PR PT HU HH SV NC s Q.
+  destruct (conc_upper_safe g policy u held0 n sch WF PR PT HU HH SV NC) as (_ & _ & H). specialize (H Q).
   destruct (GlueHistory.tree_stats_step g policy WF _ H) as (ts & E & _).
   exists ts. split; [exact E|].
   pose proof (UpperStatsProofs.llfree_tree_stats_free g policy WF (lower_facts_proved g WF) _ H (GlueProofs.LS_sum g WF) ts E) as A.
@@ -151,3 +305,110 @@ Proof.
 Qed.
 Print Assumptions conc_quiescent_stats.
 
+(* ================================ non-vacuity ================================ *)
+(* Two threads, alternating step by step, on a 4-tree allocator (TREE_FRAMES = 256; classes 0 and 1 with one slot
+   each; simple policy): thread 0 allocates (class 1) then frees frame 768 -- the block thread 1 obtained in the
+   meantime -- while thread 1 keeps allocating (class 0); `nop` (a put of a frame nobody holds) only lets running
+   calls finish.  All hypotheses of the theorems hold; the final state is quiescent, two blocks are held, and
+   (both by the theorem and by evaluation) validate() passes. *)
+Module SafeExample.
+  Import UpperConcClass.ClassExample.
+  Definition nop := UPut 1023 (rq 0 0 None).
+  Definition alt2 (n : nat) (a b : ucall) : list (nat * ucall) :=
+    flat_map (fun _ => [(0%nat, a); (1%nat, b)]) (seq 0 n).
+  Definition sch := alt2 14 cA cB ++ alt2 30 (UPut 768 (rq 0 0 (Some 0))) cB ++ alt2 40 nop nop.
+  Definition sF := urun g7 pol7 sch (uboot U0 [] 2).
+
+  Lemma wf7 : wf_geom g7. Proof. unfold wf_geom; cbn; lia. Qed.
+  Lemma inv0 : UpperInv g7 pol7 (ustate_new U0).
+  Proof. apply UpperPutProofs.upper_invb_sound; [apply PolicyFacts.pol_simple_facts|]. vm_compute. reflexivity. Qed.
+  Lemma held0 : HeldInit g7 (low U0) [].
+  Proof. change (low U0) with (free_all g7 1024) || replace (low U0) with (free_all g7 1024) by (vm_compute; reflexivity).
+         apply ConcInvInit.held_init_free_all. exact wf7. Qed.
+
+  Lemma valid_call c : In c [cA; cB; UPut 768 (rq 0 0 (Some 0)); nop] -> call_valid2 g7 U0 c.
+  Proof.
+    intros H. repeat (destruct H as [<-|H]); [| | | |destruct H]; (split; [|try exact I; vm_compute; reflexivity]);
+      cbn [call_valid]; intros l len E1 E2; vm_compute in E1, E2; inversion E1; inversion E2; subst; reflexivity.
+  Qed.
+  Lemma in_alt2 n a b t c : In (t, c) (alt2 n a b) -> c = a \/ c = b.
+  Proof.
+    unfold alt2. intros Hin. apply in_flat_map in Hin. destruct Hin as (k & _ & Hin). cbn [In] in Hin.
+    destruct Hin as [Hin|[Hin|[]]]; inversion Hin; subst; tauto.
+  Qed.
+  Lemma sched_ok : sched_valid g7 U0 sch.
+  Proof.
+    unfold sched_valid. apply Forall_forall. intros [t c] Hin. cbn [snd]. apply valid_call.
+    unfold sch in Hin. apply in_app_or in Hin. destruct Hin as [Hin|Hin]; [|apply in_app_or in Hin; destruct Hin as [Hin|Hin]];
+      apply in_alt2 in Hin; destruct Hin as [-> | ->]; cbn [In]; tauto.
+  Qed.
+
+  Lemma sched_nc : Forall (fun tc => no_change (snd tc)) sch.
+  Proof.
+    apply Forall_forall. intros [t c] Hin. cbn [snd].
+    unfold sch in Hin. apply in_app_or in Hin. destruct Hin as [Hin|Hin]; [|apply in_app_or in Hin; destruct Hin as [Hin|Hin]];
+      apply in_alt2 in Hin; destruct Hin as [-> | ->]; exact I.
+  Qed.
+
+  Example conc_upper_nonvacuous :
+    uquiescent sF /\ m2_held sF = [(768, 0%nat); (0, 0%nat)] /\ llfree_validate g7 (m2_up sF) = Ok tt.
+  Proof.
+    split; [|split; vm_compute; reflexivity].
+    intros x Hx. assert (E : m2_pool sF = [UIdle (Some (Ok (0, 0))); UIdle (Some (Ok (768, 0)))]) by (vm_compute; reflexivity).
+    rewrite E in Hx. destruct Hx as [<-|[<-|[]]]; eexists; reflexivity.
+  Qed.
+
+  (* the theorems applied to this run (keep the kernel from evaluating the run lazily when it compares sF with its definition) *)
+  Local Strategy 1000 [urun].
+  Example conc_upper_instance :
+    (forall x, In x (upanicked sF) -> x = SExceedingRetries) /\ uheld_ok sF = true /\
+    UpperInv g7 pol7 (ustate_new (m2_up sF)) /\ llfree_validate g7 (m2_up sF) = Ok tt.
+  Proof.
+    destruct (PolicyFacts.pol_simple_facts 256) as (PR & _ & PT & _).
+    destruct (conc_upper_safe g7 pol7 U0 [] 2 sch wf7 PR PT inv0 held0 sched_ok sched_nc) as (A & B & C).
+    split; [exact A|]. split; [exact B|]. split; [exact (C (proj1 conc_upper_nonvacuous))|].
+    exact (conc_quiescent_validate g7 pol7 U0 [] 2 sch wf7 PR PT inv0 held0 sched_ok sched_nc (proj1 conc_upper_nonvacuous)).
+  Qed.
+
+  (* with change_tree: thread 1 takes the entirely free tree 1 offline while thread 0 allocates; afterwards both
+     allocate.  The ghost ends as [0; 256; 0; 0] (tree 1 entirely hidden), six blocks are held, none in tree 1. *)
+  Definition offl (i : N) :=
+    UChange {| m_id := Some i; m_class := None; m_free := 256 |} {| c_class := None; c_op := Some OpOffline |}.
+  Definition schA := alt2 10 cA (offl 1).
+  Definition schB := alt2 40 nop cB ++ alt2 30 nop nop.
+  Definition xA := grun g7 pol7 schA (uboot U0 [] 2, zeros U0).
+  Definition xF := grun g7 pol7 schB xA.
+
+  Lemma valid_off : call_valid2 g7 U0 (offl 1).
+  Proof. split; [|exact I]. cbn [call_valid offl]. split; [discriminate|]. intros c E. discriminate E. Qed.
+  Lemma sched_ok2 : sched_valid g7 U0 (schA ++ schB).
+  Proof.
+    unfold sched_valid. apply Forall_forall. intros [t c] Hin. cbn [snd].
+    unfold schA, schB in Hin. apply in_app_or in Hin. destruct Hin as [Hin|Hin]; [|apply in_app_or in Hin; destruct Hin as [Hin|Hin]];
+      apply in_alt2 in Hin; destruct Hin as [-> | ->]; try apply valid_off; apply valid_call; cbn [In]; tauto.
+  Qed.
+
+  Example conc_offline_nonvacuous :
+    snd xA = [0; 256; 0; 0] /\ snd xF = [0; 256; 0; 0] /\ uquiescent (fst xF) /\
+    m2_held (fst xF) = [(772, 0%nat); (771, 0%nat); (770, 0%nat); (769, 0%nat); (768, 0%nat); (0, 0%nat)].
+  Proof.
+    split; [vm_compute; reflexivity|]. split; [vm_compute; reflexivity|]. split; [|vm_compute; reflexivity].
+    intros x Hx. assert (E : m2_pool (fst xF) = [UIdle (Some (Ok (0, 0))); UIdle (Some (Ok (772, 0)))]) by (vm_compute; reflexivity).
+    rewrite E in Hx. destruct Hx as [<-|[<-|[]]]; eexists; reflexivity.
+  Qed.
+
+  Local Strategy 1000 [grun].
+  Example conc_offline_instance :
+    nth 1 (snd xF) 0 = 256 /\ (forall F K, In (F, K) (m2_held (fst xF)) -> F / 256 <> 1) /\
+    UpperInv g7 pol7 {| us := m2_up (fst xF); off := snd xF |}.
+  Proof.
+    destruct (PolicyFacts.pol_simple_facts 256) as (PR & _ & PT & _).
+    assert (L : 1 < ntrees U0) by (vm_compute; reflexivity).
+    assert (Eo : nth (nn 1) (snd xA) 0 = TF g7) by (rewrite (proj1 conc_offline_nonvacuous); reflexivity).
+    destruct (conc_offline_hidden g7 pol7 U0 [] 2 schA schB 1 wf7 PR PT inv0 held0 sched_ok2 L Eo) as (Ey & H1 & H2 & _).
+    fold xA in Ey, H1, H2. fold xF in Ey, H1, H2.
+    split; [exact H1|]. split; [exact H2|].
+    destruct (conc_upper_safe_off g7 pol7 U0 [] 2 (schA ++ schB) wf7 PR PT inv0 held0 sched_ok2) as (_ & _ & _ & C).
+    rewrite <- Ey in C. apply C. exact (proj1 (proj2 (proj2 conc_offline_nonvacuous))).
+  Qed.
+End SafeExample.
